@@ -22,8 +22,7 @@ def sweep(rng, n):
 oracle_search = propgen.budgeted([sweep])
 
 
-def oracle_at(unit, case, impl):
-    return None
+oracle_at = propgen.definitional_oracle_at(['hier_inversions', 'hier_gauc', 'hier_measures'], 'equals the triplet-ranking definition')
 
 
 def diagnose(b):
